@@ -13,6 +13,7 @@ import (
 	"strings"
 	"testing"
 	"testing/synctest"
+	"time"
 
 	"github.com/OffchainLabs/go-bitfield"
 	eth2api "github.com/attestantio/go-eth2-client/api"
@@ -642,4 +643,111 @@ func cls(name string, on bool) string {
 		return name
 	}
 	return ""
+}
+
+// TestC06RealDeadliner runs the store behind the production core.NewDeadliner on the bubble's
+// virtual clock: "data for expired duties is refused" must hold for the real pairing, where the
+// store trusts the status the deadliner reports at the moment of the call (also after idle periods).
+func TestC06RealDeadliner(t *testing.T) {
+	vstat.Rule("C06", rule)
+	rapid.Check(t, func(rt *rapid.T) {
+		rapid.SyncTest(rt, func(rt *rapid.T) {
+			ctx, cancel := context.WithCancel(context.Background())
+			base := time.Now()
+			const unit = time.Second
+			deadlineOf := func(d core.Duty) (time.Time, bool) { return base.Add(time.Duration(d.Slot) * 4 * unit), true }
+			dl := core.NewDeadliner(ctx, "verif", deadlineOf)
+			db := dutydb.NewMemDB(dl)
+			type q struct {
+				slot uint64
+				done chan struct{}
+				err  error
+			}
+			var queries []*q
+			defer func() {
+				cancel()
+				for _, x := range queries {
+					<-x.done
+				}
+				synctest.Wait()
+			}()
+			stored := map[uint64]bool{}
+			var trace []string
+			lateRefused, idleThenLate := false, false
+			idle := false
+			nOps := rapid.IntRange(1, 25).Draw(rt, "nOps")
+			for op := 0; op < nOps; op++ {
+				switch rapid.IntRange(0, 9).Draw(rt, "op") {
+				case 0, 1, 2, 3: // time passes (possibly a long idle period with no deadliner event)
+					d := time.Duration(rapid.IntRange(1, 9).Draw(rt, "halfUnits")) * unit / 2
+					if rapid.IntRange(0, 3).Draw(rt, "odd") == 0 {
+						d += unit / 4
+					}
+					time.Sleep(d)
+					idle = true
+					trace = append(trace, fmt.Sprintf("sleep %v", d))
+				case 4, 5: // blocking query
+					slot := uint64(rapid.IntRange(1, 4).Draw(rt, "qslot"))
+					x := &q{slot: slot, done: make(chan struct{})}
+					queries = append(queries, x)
+					go func() {
+						defer close(x.done)
+						_, x.err = db.AwaitAttestation(ctx, slot, 1)
+					}()
+					trace = append(trace, fmt.Sprintf("await %d", slot))
+				default: // store
+					slot := uint64(rapid.IntRange(1, 4).Draw(rt, "slot"))
+					duty := core.Duty{Slot: slot, Type: core.DutyAttester}
+					dline, _ := deadlineOf(duty)
+					now := time.Now()
+					d := attData(slot, 1, 'a')
+					set := core.UnsignedDataSet{pk(1): core.AttestationData{Data: d, Duty: eth2v1.AttesterDuty{PubKey: eth2pk(pk(1)), Slot: eth2p0.Slot(slot), ValidatorIndex: 1, CommitteeIndex: 1, CommitteeLength: 8, CommitteesAtSlot: 3}}}
+					err := db.Store(ctx, duty, set)
+					synctest.Wait()
+					trace = append(trace, fmt.Sprintf("store %d at +%v (deadline +%v) err=%v", slot, now.Sub(base), dline.Sub(base), err != nil))
+					switch {
+					case now.After(dline):
+						if err == nil {
+							rt.Fatalf("EXPIRED ACCEPTED: Store for duty %v at +%v, after its deadline +%v, succeeded (trace %v)", duty, now.Sub(base), dline.Sub(base), trace)
+						}
+						lateRefused = true
+						if idle {
+							idleThenLate = true
+						}
+					case now.Before(dline):
+						if err != nil {
+							rt.Fatalf("store before the deadline refused: %v (trace %v)", err, trace)
+						}
+						stored[slot] = true
+					default:
+						if err == nil {
+							stored[slot] = true
+						}
+					}
+					idle = false
+				}
+				synctest.Wait()
+				// a query may only have returned if its key was stored by a successful store
+				var still []*q
+				for _, x := range queries {
+					select {
+					case <-x.done:
+						if x.err != nil {
+							rt.Fatalf("query for slot %d failed: %v", x.slot, x.err)
+						}
+						if !stored[x.slot] {
+							rt.Fatalf("EXPIRED SERVED: a query for slot %d was answered although every store for it was after the deadline (trace %v)", x.slot, trace)
+						}
+					default:
+						if stored[x.slot] && time.Now().Before(base.Add(time.Duration(x.slot)*4*unit)) {
+							rt.Fatalf("BLOCKED: query for slot %d still waits although it was stored before the deadline (trace %v)", x.slot, trace)
+						}
+						still = append(still, x)
+					}
+				}
+				queries = still
+			}
+			vstat.Case("real:"+strings.Join(trace, ";"), lateRefused, cls("real_deadliner", true), cls("late_store_refused", lateRefused), cls("late_store_after_idle", idleThenLate))
+		})
+	})
 }
